@@ -198,6 +198,8 @@ def make_basis(ctx, rng, kind, rec, maxcells, facet=None, order2=False, subset=F
         ctx.reached("second-order-mesh")
     mesh = mc.mesh
     kw = {}
+    if intorder is None and kind == "tet" and "Mini" in rec.name:
+        intorder = 4   # default order 2*maxdeg is beyond the tetrahedral tables for the bubble (degree 4)
     if intorder is not None:
         kw["intorder"] = intorder
     while True:
@@ -446,24 +448,61 @@ def kwargs_for(rng, basis, terms):
 POINTS = ("none", "zero", "unit", "large")
 
 
-def run_problem(ctx, rng, k, prob, tag, linear_clause=False):
-    """Judge one problem at two linearisation points; FD at one of them (both in thorough tier)."""
-    pts = ["unit", POINTS[k % 4] if POINTS[k % 4] != "unit" else "large"]
-    Js = []
-    for i, which in enumerate(pts):
-        which, x = lin_point(ctx, rng, prob, which)
-        do_fd = (i == (k // 4) % 2) or ctx.thorough
-        Js.append((which, x, judge(ctx, prob, x, which, tag, fd=do_fd)))
-    (w1, x1, J1), (w2, x2, J2) = Js
+def run_problem(ctx, rng, k, prob, tag):
+    """Judge one problem.  Quick tier: one linearisation point (class rotates with k) judged by every oracle,
+    non-triviality from the reference Jacobian at a second point.  Thorough tier: both points judged."""
+    first = POINTS[k % 4]
+    second = "unit" if first != "unit" else "large"
+    which, x = lin_point(ctx, rng, prob, first)
+    J1 = judge(ctx, prob, x, which, tag, fd=True)
+    which2, x2 = lin_point(ctx, rng, prob, second)
+    if ctx.thorough:
+        J2 = judge(ctx, prob, x2, which2, tag, fd=(k % 3 == 0))
+    else:
+        J2 = prob.jac_hand(x2).toarray()
     if J1 is not None and J2 is not None:
         nonlinear = float(np.abs(J1 - J2).max()) > 1e-9 * max(float(np.abs(J1).max()), 1e-300)
         if nonlinear:
             ctx.nontrivial(tag["layout"], prob.names(), tag["mesh"])
-        elif not all(t.linear for t in prob.terms) and not (np.array_equal(x1, x2)):
+        else:
             ctx.drop("jacobian-did-not-change-between-points")
-    ctx.sample(dict(tag, terms=prob.names(), coefficients=prob.Ps, points=pts, N=int(prob.basis.N),
+    ctx.sample(dict(tag, terms=prob.names(), coefficients=prob.Ps, points=[which, which2], N=int(prob.basis.N),
                     Nbfun=int(prob.basis.Nbfun), maxJ=None if J1 is None else float(np.abs(J1).max())))
-    return Js
+
+
+_NB = {}
+
+
+def nbfun(rec):
+    """Local size of the element (measured on the default mesh of its cell kind, cached)."""
+    import skfem
+    if rec.name not in _NB:
+        _NB[rec.name] = int(skfem.CellBasis(G.mesh_class(rec.kind)(), rec.make(), intorder=2).Nbfun)
+    return _NB[rec.name]
+
+
+def choose(ctx, k, layout_list, cap, kinds_ok=None):
+    """Deterministic rotation over (layout, cell kind, element) restricted to local sizes <= cap."""
+    L = lay()
+    order = ("tri", "tet", "quad", "hex", "line", "wedge")
+    per_layout = []
+    for layout in layout_list:
+        lst = []
+        for kind in L[layout]:
+            if kinds_ok and kind not in kinds_ok:
+                continue
+            for i, rec in enumerate(L[layout][kind]):
+                if nbfun(rec) <= cap:
+                    lst.append((i, order.index(kind), layout, kind, rec))
+        lst.sort(key=lambda c: c[:2])
+        per_layout.append([c[2:] for c in lst])
+    # round-robin over the layouts, inside a layout first over the cell kinds, then over the elements
+    combos = []
+    i = 0
+    while any(i < len(l) for l in per_layout):
+        combos += [l[i] for l in per_layout if i < len(l)]
+        i += 1
+    return combos[k % len(combos)]
 
 
 # ===================================================================== Part A families
@@ -471,18 +510,11 @@ def fam_residual(layout_group, poolname):
     """Residual-form problems for the layouts in `layout_group`."""
     def fn(ctx, k):
         rng = ctx.rng()
-        L = lay()
-        layout = layout_group[k % len(layout_group)]
-        kinds = sorted(L[layout])
-        kind = kinds[(k // len(layout_group)) % len(kinds)]
-        recs = L[layout][kind]
-        rec = recs[(k // (len(layout_group) * len(kinds))) % len(recs)]
+        layout, kind, rec = choose(ctx, k, layout_group, ctx.scale(19, 40))
         nb_guess = {"line": 6, "tri": 10, "quad": 8, "tet": 6, "hex": 3, "wedge": 4}[kind]
         maxcells = ctx.scale(nb_guess, 3 * nb_guess)
         mc, mesh, basis = make_basis(ctx, rng, kind, rec, maxcells, order2=(k % 5 == 4), subset=(k % 7 == 3),
                                      intorder=(None if k % 3 else int(rng.integers(2, 5))))
-        if basis.Nbfun > ctx.scale(31, 64):
-            raise Skip("local-size-too-large-for-tier")
         dim = mesh.dim()
         terms = pick_terms(rng, poolname, layout, dim)
         Ps = [t.coef(rng) for t in terms]
@@ -500,17 +532,9 @@ def fam_residual(layout_group, poolname):
 
 def fam_energy(ctx, k):
     rng = ctx.rng()
-    L = lay()
-    layouts_ = ["scalar", "vector", "scalar+scalar"]
-    layout = layouts_[k % 3]
-    kinds = sorted(L[layout])
-    kind = kinds[(k // 3) % len(kinds)]
-    recs = [r for r in L[layout][kind]]
-    rec = recs[(k // (3 * len(kinds))) % len(recs)]
+    layout, kind, rec = choose(ctx, k, ["scalar", "vector", "scalar+scalar"], ctx.scale(12, 30))
     nb_guess = {"line": 6, "tri": 8, "quad": 6, "tet": 5, "hex": 2, "wedge": 3}[kind]
     mc, mesh, basis = make_basis(ctx, rng, kind, rec, ctx.scale(nb_guess, 3 * nb_guess), order2=(k % 6 == 5))
-    if basis.Nbfun > ctx.scale(24, 40):
-        raise Skip("local-size-too-large-for-tier")
     terms = pick_terms(rng, "energy", layout, mesh.dim(), kmax=2, energy=True)
     prob = Problem(basis, terms, [t.coef(rng) for t in terms], {}, energy=True)
     ctx.reached("hessian-path")
@@ -523,16 +547,11 @@ def fam_energy(ctx, k):
 
 def fam_facet(ctx, k):
     rng = ctx.rng()
-    L = lay()
-    layout = ("scalar", "vector")[k % 2]
-    kinds = [kd for kd in sorted(L[layout]) if kd in ("tri", "quad", "tet", "hex")]
-    kind = kinds[(k // 2) % len(kinds)]
-    recs = [r for r in L[layout][kind] if r.facet_basis and "DG" not in r.name]
-    rec = recs[(k // (2 * len(kinds))) % len(recs)]
+    layout, kind, rec = choose(ctx, k, ["scalar", "vector"], ctx.scale(12, 30), kinds_ok=("tri", "quad", "tet", "hex"))
+    if not rec.facet_basis or "DG" in rec.name:
+        raise Skip("element-without-facet-basis")
     facet = "interior" if k % 3 == 2 else "boundary"
     mc, mesh, basis = make_basis(ctx, rng, kind, rec, ctx.scale(6, 16), facet=facet)
-    if basis.Nbfun > ctx.scale(24, 40):
-        raise Skip("local-size-too-large-for-tier")
     if basis.nelems == 0:
         raise Skip("no-facets")
     terms = pick_terms(rng, "facet", layout, mesh.dim(), kmax=1)
@@ -549,16 +568,9 @@ def fam_linear(ctx, k):
     """Integrands linear in the unknown: J is the ordinary matrix at every x, rhs = b - A x."""
     import skfem
     rng = ctx.rng()
-    L = lay()
-    layout = LINEAR_LAYOUTS[k % len(LINEAR_LAYOUTS)]
-    kinds = sorted(L[layout])
-    kind = kinds[(k // len(LINEAR_LAYOUTS)) % len(kinds)]
-    recs = L[layout][kind]
-    rec = recs[(k // (len(LINEAR_LAYOUTS) * len(kinds))) % len(recs)]
+    layout, kind, rec = choose(ctx, k, LINEAR_LAYOUTS, ctx.scale(12, 30))
     nb_guess = {"line": 6, "tri": 8, "quad": 6, "tet": 5, "hex": 2, "wedge": 3}[kind]
     mc, mesh, basis = make_basis(ctx, rng, kind, rec, ctx.scale(nb_guess, 3 * nb_guess), order2=(k % 6 == 5))
-    if basis.Nbfun > ctx.scale(31, 64):
-        raise Skip("local-size-too-large-for-tier")
     poolname = "hess" if layout == "hess" else ("composite" if "+" in layout else layout)
     terms = pick_terms(rng, poolname, layout, mesh.dim(), kmax=3, only_linear=True)
     prob = Problem(basis, terms, [t.coef(rng) for t in terms], {})
@@ -569,7 +581,7 @@ def fam_linear(ctx, k):
     b = -prob.residual(np.zeros(N))         # ordinary LinearForm assembly of the load
     sA = float(np.abs(A).max())
     Aabs = abs(A)
-    for which in ("none", "unit", "large"):
+    for which in (("none", "unit", "large") if ctx.thorough else (("none", "unit")[k % 2], "large")):
         which, x = lin_point(ctx, rng, prob, which)
         x0 = np.zeros(N) if x is None else x
         J, rhs = prob.nl.assemble(basis, x=x)
@@ -589,15 +601,8 @@ def fam_directed(ctx, k):
     import jax.numpy as jnp
     from skfem.autodiff import helpers as JHm
     rng = ctx.rng()
-    L = lay()
-    layout = ("scalar", "vector", "scalar+scalar", "vector+scalar")[k % 4]
-    kind = ("tri", "quad", "tet", "line")[(k // 4) % 4]
-    if kind not in L[layout]:
-        kind = "tri"
-    rec = L[layout][kind][k % len(L[layout][kind])]
+    layout, kind, rec = choose(ctx, 5 * k + 1, ["scalar", "vector", "scalar+scalar", "vector+scalar"], ctx.scale(12, 24))
     mc, mesh, basis = make_basis(ctx, rng, kind, rec, ctx.scale(5, 12))
-    if basis.Nbfun > 24:
-        raise Skip("local-size-too-large-for-tier")
     poolname = "composite" if "+" in layout else layout
     terms = [t for t in pick_terms(rng, poolname, layout, mesh.dim()) if not t.positive]
     if not terms:
